@@ -299,7 +299,8 @@ vh::Outcome run_c04_t(const vh::Case& c) {
 vh::Outcome run_c04(const vh::Case& c) {
     // payload variants: Tracked (move may throw) and TrackedNX (nothrow-movable: type-trait dependent code paths)
     bool timed = c.cfg.size() > 1 && c.cfg[1] % 2 == 1;
-    if (!c.sched.fault_k && !c.cfg.empty() && c.cfg[0] % 2 == 1) {
+    if (!c.sched.fault_k && !c.cfg.empty() && c.cfg[0] % 3 == 2) { vh::Outcome o = run_c04_t<vrt::TrackedIL>(c); o.labels.push_back("payload=initializer-list-constructible"); return o; }
+    if (!c.sched.fault_k && !c.cfg.empty() && c.cfg[0] % 3 == 1) {
         vh::Outcome o = timed ? run_c04_t<vrt::TrackedNX, vstd::timed_mutex>(c) : run_c04_t<vrt::TrackedNX>(c);
         o.labels.push_back("payload=nothrow-movable"); if (timed) o.labels.push_back("M=timed_mutex"); return o;
     }
@@ -308,7 +309,7 @@ vh::Outcome run_c04(const vh::Case& c) {
 }
 
 vh::GenSpec c04_spec(bool thorough) {
-    vh::GenSpec g; g.nfibers = 4; g.cfg_max = {2, 2}; g.max_ops = thorough ? 6 : 4; g.ncodes = 6; g.amax = 4; g.bmax = 4;
+    vh::GenSpec g; g.nfibers = 4; g.cfg_max = {3, 2}; g.max_ops = thorough ? 6 : 4; g.ncodes = 6; g.amax = 4; g.bmax = 4;
     g.sched_len = thorough ? 256 : 176; g.aux_len = 16;
     return g;
 }
